@@ -12,16 +12,23 @@
 (* read, deletion a plain write (data races under Weak = C03).             *)
 (* Node ids may be recycled after destruction (Reuse) - the ABA that the   *)
 (* publish / re-validate protocol must tolerate.                           *)
+(* Thread exit (~thread_data): scan, abandon what is still protected to    *)
+(* the global list ABND, release the thread block (ACT := FALSE); every    *)
+(* scan adopts ABND before it gathers the hazard pointers.                 *)
 (***************************************************************************)
 EXTENDS Mem, TLC
 
 CONSTANTS NT, K, NG, NCells, NNodes, MaxOps, Ord,
           Revalidate,   \* TRUE: acquire re-reads the cell after publishing the hazard pointer (code)
           Reuse,        \* TRUE: destroyed node ids may be allocated again
-          Threshold     \* scan when the number of retired nodes reaches Threshold (0/1: at every retire)
+          Threshold,    \* scan when the number of retired nodes reaches Threshold (0/1: at every retire)
+          Roles,        \* per thread: the <<operation, cell>> pairs its program may use (RolesAll: everything)
+          Exits,        \* TRUE: threads may exit when their program is over
+          AdoptFirst    \* TRUE: scan adopts the abandoned nodes before gathering the hazard pointers (code); FALSE: afterwards
 
 OrdCode == [a_ld1 |-> "rlx", a_link |-> "rlx", a_set |-> "rel", a_fence |-> "sc", a_ld2 |-> "acq",
-            r_st |-> "rel", x_cas |-> "rel", x_casf |-> "rlx", s_fence8 |-> "sc", s_ld |-> "rlx", s_fence9 |-> "acq"]
+            r_st |-> "rel", x_cas |-> "rel", x_casf |-> "rlx", s_fence8 |-> "sc", s_ld |-> "rlx", s_fence9 |-> "acq",
+            s_act |-> "rlx", s_adopt |-> "acq", x_abandon |-> "rel", x_release |-> "rel"]
 
 ThreadsDef == 0 .. NT - 1
 Nodes == 1 .. NNodes
@@ -29,21 +36,29 @@ Cells == 0 .. NCells - 1
 CELL(c) == <<"cell", c, 0>>
 SLOT(t, k) == <<"slot", t, k>>
 PAY(n) == <<"pay", n, 0>>
-LocsDef == {CELL(c) : c \in Cells} \cup {SLOT(t, k) : t \in ThreadsDef, k \in 1 .. K} \cup {PAY(n) : n \in Nodes}
+ABND == <<"abnd", 0, 0>>
+ACT(t) == <<"act", t, 0>>
+LocsDef == {ABND} \cup {ACT(t) : t \in ThreadsDef} \cup {CELL(c) : c \in Cells} \cup {SLOT(t, k) : t \in ThreadsDef, k \in 1 .. K} \cup {PAY(n) : n \in Nodes}
            \cup (IF Weak THEN {RT(PAY(n), u) : n \in Nodes, u \in ThreadsDef} ELSE {})
 Link(j) == -(j + 1)
+RolesAll == [t \in ThreadsDef |-> {<<o, c>> : o \in {"acquire", "acqe", "replace", "reset", "copy"}, c \in Cells}]
+\* three roles: a scanner (retires something else), a holder, a thread that retires the held node and exits
+RolesExit3 == [t \in ThreadsDef |-> IF t = 0 THEN {<<"replace", 1>>} ELSE IF t = 1 THEN {<<"acquire", 0>>} ELSE {<<"replace", 0>>}]
+SeqOf(S) == CHOOSE q \in [1 .. Cardinality(S) -> S] : {q[i] : i \in 1 .. Cardinality(S)} = S
 IsObj(v) == v > 0
 \* initial free list of a block: slot k links to k+1, the last one to null
 InitValDef(x) == IF x[1] = "cell" THEN x[2] + 1                       \* cell c holds node c+1
                  ELSE IF x[1] = "slot" THEN (IF x[3] < K THEN Link(x[3] + 1) ELSE Link(0))
+                 ELSE IF x[1] = "abnd" THEN {}
+                 ELSE IF x[1] = "act" THEN TRUE
                  ELSE 0
 
-VARIABLES pc, loc, guards, hint, rlist, nstate, budget, flushed, bad, last
-vars == <<pc, loc, guards, hint, rlist, nstate, budget, flushed, bad, last, memvars>>
-mcview == <<pc, loc, guards, hint, rlist, nstate, budget, flushed, bad, memvars>>
+VARIABLES pc, loc, guards, hint, rlist, nstate, budget, flushed, alive, bad, last
+vars == <<pc, loc, guards, hint, rlist, nstate, budget, flushed, alive, bad, last, memvars>>
+mcview == <<pc, loc, guards, hint, rlist, nstate, budget, flushed, alive, bad, memvars>>
 
 G0 == [ptr |-> 0, hp |-> 0]
-L0 == [g |-> 0, h |-> 0, c |-> 0, p1 |-> 0, p2 |-> 0, op |-> "none", fresh |-> 0, u |-> 0, k |-> 0, prot |-> {}, exp |-> 0, after |-> "none"]
+L0 == [g |-> 0, h |-> 0, c |-> 0, p1 |-> 0, p2 |-> 0, op |-> "none", fresh |-> 0, u |-> 0, k |-> 0, prot |-> {}, exp |-> 0, after |-> "none", adopted |-> {}]
 
 Init == /\ MemInit
         /\ pc = [t \in Threads |-> "idle"]
@@ -54,42 +69,44 @@ Init == /\ MemInit
         /\ nstate = [n \in Nodes |-> IF n <= NCells THEN "live" ELSE "free"]
         /\ budget = [t \in Threads |-> MaxOps]
         /\ flushed = [t \in Threads |-> FALSE]
+        /\ alive = [t \in Threads |-> TRUE]
         /\ bad = "ok"
         /\ last = [t |-> -1, k |-> "init", lab |-> "init", v |-> 0, ok |-> 1, n |-> 0]
 
 Goto(t, l) == pc' = [pc EXCEPT ![t] = l]
 Acc(t, k, lab, v, ok) == last' = [t |-> t, k |-> k, lab |-> lab, v |-> v, ok |-> ok, n |-> last.n + 1]    \* n: access counter
-UG == UNCHANGED <<guards, hint, rlist, nstate, budget, flushed, bad>>
+UG == UNCHANGED <<guards, hint, rlist, nstate, budget, flushed, alive, bad>>
 
 \* ---------------------------------------------------------------- client: start of operations
 Begin(t, op, g, h, c, first) ==
-  /\ pc[t] = "idle" /\ budget[t] > 0
+  /\ pc[t] = "idle" /\ budget[t] > 0 /\ alive[t] /\ <<op, c>> \in Roles[t]
   /\ budget' = [budget EXCEPT ![t] = @ - 1]
   /\ loc' = [loc EXCEPT ![t] = [L0 EXCEPT !.op = op, !.g = g, !.h = h, !.c = c]]
   /\ Goto(t, first)
   /\ Acc(t, "call", op, g, 1)
-  /\ UNCHANGED <<guards, hint, rlist, nstate, flushed, bad, memvars>>
+  /\ UNCHANGED <<guards, hint, rlist, nstate, flushed, alive, bad, memvars>>
 StartAcquire(t) == \E g \in 1 .. NG, c \in Cells : Begin(t, "acquire", g, 0, c, "a_ld1")
 StartAcqIfEq(t) == \E g \in 1 .. NG, c \in Cells : Begin(t, "acqe", g, 0, c, "e_ldx")
 StartReplace(t) == \E g \in 1 .. NG, c \in Cells : Begin(t, "replace", g, 0, c, "a_ld1")
 StartReset(t) == \E g \in 1 .. NG : guards[t][g].hp # 0 /\ Begin(t, "reset", g, 0, 0, "r_st")
 StartCopy(t) == \E g \in 1 .. NG, h \in 1 .. NG : g # h /\ guards[t][g].ptr # 0 /\ Begin(t, "copy", h, g, 0, "c_begin")
 \* touch: dereference through an established guard (plain read of the payload)
-Touch(t) == /\ pc[t] = "idle"
+Touch(t) == /\ pc[t] = "idle" /\ alive[t]
             /\ \E g \in 1 .. NG :
                  LET n == guards[t][g].ptr IN
                  /\ n # 0
                  /\ bad' = IF nstate[n] \in {"live", "ret"} THEN bad ELSE "touch of a destroyed object"
                  /\ PlainRd(t, PAY(n))
-            /\ UNCHANGED <<pc, loc, guards, hint, rlist, nstate, budget, flushed, last>>
+            /\ UNCHANGED <<pc, loc, guards, hint, rlist, nstate, budget, flushed, alive, last>>
 \* flush: the scheme's reclamation point (a scan), once per thread when its program is over
-StartFlush(t) == /\ pc[t] = "idle" /\ budget[t] = 0 /\ ~flushed[t]
+ScanPcs == {"s_fence8", "s_adopt", "s_act", "s_ld", "s_free"}
+StartFlush(t) == /\ pc[t] = "idle" /\ budget[t] = 0 /\ ~flushed[t] /\ alive[t]
                  /\ \A u \in Threads : budget[u] = 0 /\ \A g \in 1 .. NG : guards[u][g].hp = 0
-                 /\ \A u \in Threads : pc[u] \in {"idle", "s_fence8", "s_ld", "s_free"}
+                 /\ \A u \in Threads : pc[u] \in {"idle"} \cup ScanPcs /\ (loc[u].op # "exit" \/ ~alive[u])
                  /\ flushed' = [flushed EXCEPT ![t] = TRUE]
                  /\ loc' = [loc EXCEPT ![t] = [L0 EXCEPT !.op = "flush"]]
                  /\ Goto(t, "s_fence8") /\ Acc(t, "call", "flush", 0, 1)
-                 /\ UNCHANGED <<guards, hint, rlist, nstate, budget, bad, memvars>>
+                 /\ UNCHANGED <<guards, hint, rlist, nstate, budget, alive, bad, memvars>>
 
 \* ---------------------------------------------------------------- alloc_hazard_pointer (own free list)
 \* result = hint (throws if null - excluded here: NG <= K); hint = result->get_link() : relaxed load of the own slot
@@ -103,7 +120,7 @@ AllocTo(t, from, to) ==
         /\ hint' = [hint EXCEPT ![t] = -(ValAt(x, i)) - 1]
         /\ guards' = [guards EXCEPT ![t][loc[t].g].hp = s]
   /\ Goto(t, to)
-  /\ UNCHANGED <<loc, rlist, nstate, budget, flushed, bad>>
+  /\ UNCHANGED <<loc, rlist, nstate, budget, flushed, alive, bad>>
 
 \* ---------------------------------------------------------------- acquire
 a_ld1(t) == /\ pc[t] = "a_ld1"
@@ -122,7 +139,7 @@ a_alloc(t) == AllocTo(t, "a_alloc", "a_loop")
 a_null(t) == /\ pc[t] = "a_loop" /\ loc[t].p2 = 0       \* p2 == nullptr: reset(); return
              /\ loc' = [loc EXCEPT ![t].after = "op_done"]
              /\ Goto(t, IF guards[t][loc[t].g].hp # 0 THEN "r_st" ELSE "r_nohp")
-             /\ UNCHANGED <<guards, hint, rlist, nstate, budget, flushed, bad, last, memvars>>
+             /\ UNCHANGED <<guards, hint, rlist, nstate, budget, flushed, alive, bad, last, memvars>>
 a_set(t) == /\ pc[t] = "a_loop" /\ loc[t].p2 # 0
             /\ Store(t, SLOT(t, guards[t][loc[t].g].hp), loc[t].p2, Ord["a_set"])
             /\ Acc(t, "st", "a_set", loc[t].p2, 1)
@@ -142,7 +159,7 @@ a_ld2(t) == /\ pc[t] = "a_ld2"
                        THEN Goto(t, "a_loop") /\ UNCHANGED guards
                        ELSE /\ guards' = [guards EXCEPT ![t][g].ptr = IF Revalidate THEN p2 ELSE loc[t].p1]
                             /\ Goto(t, "op_done")
-            /\ UNCHANGED <<hint, rlist, nstate, budget, flushed, bad>>
+            /\ UNCHANGED <<hint, rlist, nstate, budget, flushed, alive, bad>>
 
 \* ---------------------------------------------------------------- acquire_if_equal (expected = value loaded just before)
 e_ldx(t) == /\ pc[t] = "e_ldx"                       \* the client's own load of the expected value
@@ -180,7 +197,7 @@ e_ld2(t) == /\ pc[t] = "e_ld2"
                   /\ IF p2 # loc[t].p1
                        THEN Goto(t, "r_st") /\ loc' = [loc EXCEPT ![t].after = "op_done"]
                        ELSE Goto(t, "op_done") /\ UNCHANGED loc
-            /\ UNCHANGED <<hint, rlist, nstate, budget, flushed, bad>>
+            /\ UNCHANGED <<hint, rlist, nstate, budget, flushed, alive, bad>>
 
 \* ---------------------------------------------------------------- reset: release_hazard_pointer + ptr.reset()
 r_st(t) == /\ pc[t] = "r_st"
@@ -190,16 +207,16 @@ r_st(t) == /\ pc[t] = "r_st"
               /\ hint' = [hint EXCEPT ![t] = s]
               /\ guards' = [guards EXCEPT ![t][g] = G0]
            /\ Goto(t, IF loc[t].after = "none" THEN "op_done" ELSE loc[t].after)
-           /\ UNCHANGED <<loc, rlist, nstate, budget, flushed, bad>>
+           /\ UNCHANGED <<loc, rlist, nstate, budget, flushed, alive, bad>>
 r_nohp(t) == /\ pc[t] = "r_nohp"
              /\ guards' = [guards EXCEPT ![t][loc[t].g] = G0]
              /\ Goto(t, IF loc[t].after = "none" THEN "op_done" ELSE loc[t].after)
-             /\ UNCHANGED <<loc, hint, rlist, nstate, budget, flushed, bad, last, memvars>>
+             /\ UNCHANGED <<loc, hint, rlist, nstate, budget, flushed, alive, bad, last, memvars>>
 
 \* ---------------------------------------------------------------- copy assignment h = g (operator=(const guard_ptr&))
 c_begin(t) == /\ pc[t] = "c_begin"
               /\ Goto(t, IF guards[t][loc[t].g].hp = 0 THEN "c_alloc" ELSE "c_set")
-              /\ UNCHANGED <<loc, guards, hint, rlist, nstate, budget, flushed, bad, last, memvars>>
+              /\ UNCHANGED <<loc, guards, hint, rlist, nstate, budget, flushed, alive, bad, last, memvars>>
 c_alloc(t) == AllocTo(t, "c_alloc", "c_set")
 c_set(t) == /\ pc[t] = "c_set"
             /\ LET src == guards[t][loc[t].h].ptr IN
@@ -207,7 +224,7 @@ c_set(t) == /\ pc[t] = "c_set"
                /\ Acc(t, "st", "a_set", src, 1)
                /\ guards' = [guards EXCEPT ![t][loc[t].g].ptr = src]
             /\ Goto(t, "c_fence")
-            /\ UNCHANGED <<loc, hint, rlist, nstate, budget, flushed, bad>>
+            /\ UNCHANGED <<loc, hint, rlist, nstate, budget, flushed, alive, bad>>
 c_fence(t) == /\ pc[t] = "c_fence"
               /\ Fence(t, Ord["a_fence"]) /\ Acc(t, "fence", "a_fence", 0, 1)
               /\ Goto(t, "op_done") /\ UNCHANGED loc /\ UG
@@ -221,7 +238,7 @@ op_done(t) ==
                                    /\ nstate' = [nstate EXCEPT ![n] = "live"]
             /\ Goto(t, "x_cas")
        ELSE Goto(t, "idle") /\ UNCHANGED <<loc, nstate>>
-  /\ UNCHANGED <<guards, hint, rlist, budget, flushed, bad, last, memvars>>
+  /\ UNCHANGED <<guards, hint, rlist, budget, flushed, alive, bad, last, memvars>>
 x_cas(t) == /\ pc[t] = "x_cas"
             /\ LET x == CELL(loc[t].c) old == guards[t][loc[t].g].ptr IN
                IF Latest(x) = old
@@ -235,14 +252,29 @@ x_cas(t) == /\ pc[t] = "x_cas"
                       /\ Acc(t, "cas", "x_cas", Latest(x), 0)
                       /\ nstate' = [nstate EXCEPT ![loc[t].fresh] = "free"]  \* never published: deleted by the client
                       /\ Goto(t, "idle") /\ UNCHANGED <<rlist, loc>>
-            /\ UNCHANGED <<guards, hint, budget, flushed, bad>>
+            /\ UNCHANGED <<guards, hint, budget, flushed, alive, bad>>
 
 \* ---------------------------------------------------------------- scan
 s_fence8(t) == /\ pc[t] = "s_fence8"
                /\ Fence(t, Ord["s_fence8"]) /\ Acc(t, "fence", "s_fence8", 0, 1)
-               /\ loc' = [loc EXCEPT ![t].u = 0, ![t].k = 1, ![t].prot = {}]
-               /\ Goto(t, "s_ld") /\ UG
-s_ld(t) == /\ pc[t] = "s_ld" /\ loc[t].u < NT
+               /\ loc' = [loc EXCEPT ![t].u = 0, ![t].k = 1, ![t].prot = {}, ![t].adopted = {}]
+               /\ Goto(t, IF AdoptFirst THEN "s_adopt" ELSE "s_act") /\ UG
+\* adopt_abandoned_retired_nodes: exchange with null
+s_adopt(t) == /\ pc[t] = "s_adopt"
+              /\ loc' = [loc EXCEPT ![t].adopted = Latest(ABND)]
+              /\ Rmw(t, ABND, {}, Ord["s_adopt"]) /\ Acc(t, "xchg", "s_adopt", 0, 1)
+              /\ Goto(t, IF AdoptFirst THEN "s_act" ELSE "s_free") /\ UG
+\* for every entry of the thread block list: is_active, then its K slots
+s_act(t) == /\ pc[t] = "s_act"
+            /\ IF loc[t].u = NT
+                 THEN /\ Fence(t, Ord["s_fence9"]) /\ Acc(t, "fence", "s_fence9", 0, 1)
+                      /\ Goto(t, IF AdoptFirst THEN "s_free" ELSE "s_adopt") /\ UNCHANGED loc
+                 ELSE \E i \in Readable(t, ACT(loc[t].u), Ord["s_act"]) :
+                         /\ Load(t, ACT(loc[t].u), Ord["s_act"], i) /\ Acc(t, "ld", "s_act", 0, 1)
+                         /\ IF ValAt(ACT(loc[t].u), i) THEN Goto(t, "s_ld") /\ UNCHANGED loc
+                            ELSE loc' = [loc EXCEPT ![t].u = @ + 1] /\ UNCHANGED pc
+            /\ UG
+s_ld(t) == /\ pc[t] = "s_ld"
            /\ LET x == SLOT(loc[t].u, loc[t].k) IN
               \E i \in Readable(t, x, Ord["s_ld"]) :
                  LET v == ValAt(x, i) IN
@@ -251,27 +283,54 @@ s_ld(t) == /\ pc[t] = "s_ld" /\ loc[t].u < NT
                  /\ loc' = [loc EXCEPT ![t].prot = IF IsObj(v) THEN @ \cup {v} ELSE @,
                                        ![t].k = IF loc[t].k = K THEN 1 ELSE @ + 1,
                                        ![t].u = IF loc[t].k = K THEN @ + 1 ELSE @]
-           /\ UNCHANGED pc /\ UG
-s_fence9(t) == /\ pc[t] = "s_ld" /\ loc[t].u = NT
-               /\ Fence(t, Ord["s_fence9"]) /\ Acc(t, "fence", "s_fence9", 0, 1)
-               /\ Goto(t, "s_free") /\ UNCHANGED loc /\ UG
-\* reclaim_nodes: unprotected nodes are deleted (plain write to the payload), protected ones stay retired
+                 /\ Goto(t, IF loc[t].k = K THEN "s_act" ELSE "s_ld")
+           /\ UG
+\* reclaim_nodes(own list) and reclaim_nodes(adopted): unprotected nodes are deleted (plain write to the payload), protected
+\* ones stay / become retired nodes of this thread
 s_free(t) == /\ pc[t] = "s_free"
-             /\ LET del == {rlist[t][i] : i \in {j \in 1 .. Len(rlist[t]) : rlist[t][j] \notin loc[t].prot}} IN
-                IF del = {} THEN /\ Goto(t, "idle") /\ UNCHANGED <<rlist, nstate, bad, memvars>>
-                ELSE LET n == CHOOSE m \in del : TRUE IN
-                     /\ PlainWr(t, PAY(n), 0)
-                     /\ bad' = IF nstate[n] = "ret" THEN bad ELSE "deleted a node that is not retired"
-                     /\ nstate' = [nstate EXCEPT ![n] = "des"]
-                     /\ rlist' = [rlist EXCEPT ![t] = SelectSeq(@, LAMBDA m : m # n)]
-                     /\ UNCHANGED pc
-             /\ UNCHANGED <<loc, guards, hint, budget, flushed, last>>
+             /\ LET own == {rlist[t][i] : i \in 1 .. Len(rlist[t])}
+                    del == {n \in own \cup loc[t].adopted : n \notin loc[t].prot} IN
+                IF del = {}
+                  THEN /\ rlist' = [rlist EXCEPT ![t] = @ \o SeqOf(loc[t].adopted \ own)]
+                       /\ loc' = [loc EXCEPT ![t].adopted = {}]
+                       /\ Goto(t, IF loc[t].op = "exit" THEN "x_abandon" ELSE "idle") /\ UNCHANGED <<nstate, bad, memvars>>
+                  ELSE LET n == CHOOSE m \in del : TRUE IN
+                       /\ PlainWr(t, PAY(n), 0)
+                       /\ bad' = IF bad = "ok" /\ nstate[n] # "ret" THEN "deleted a node that is not retired" ELSE bad
+                       /\ nstate' = [nstate EXCEPT ![n] = "des"]
+                       /\ rlist' = [rlist EXCEPT ![t] = SelectSeq(@, LAMBDA m : m # n)]
+                       /\ loc' = [loc EXCEPT ![t].adopted = @ \ {n}]
+                       /\ UNCHANGED pc
+             /\ UNCHANGED <<guards, hint, budget, flushed, alive, last>>
+
+\* ---------------------------------------------------------------- thread exit: ~thread_data
+StartExit(t) == /\ Exits /\ pc[t] = "idle" /\ alive[t] /\ budget[t] = 0 /\ loc[t].op # "exit"
+                /\ \A g \in 1 .. NG : guards[t][g].hp = 0
+                /\ \A u \in Threads : ~flushed[u]                    \* threads exit before the final flush phase
+                /\ \E u \in Threads \ {t} : alive[u] /\ loc[u].op # "exit"      \* somebody stays to clean up
+                /\ loc' = [loc EXCEPT ![t] = [L0 EXCEPT !.op = "exit"]]
+                /\ Goto(t, IF rlist[t] # <<>> THEN "s_fence8" ELSE "x_release") /\ Acc(t, "call", "exit", 0, 1)
+                /\ UNCHANGED <<guards, hint, rlist, nstate, budget, flushed, alive, bad, memvars>>
+x_abandon(t) == /\ pc[t] = "x_abandon"
+                /\ IF rlist[t] # <<>>
+                     THEN /\ Rmw(t, ABND, Latest(ABND) \cup {rlist[t][i] : i \in 1 .. Len(rlist[t])}, Ord["x_abandon"])
+                          /\ Acc(t, "cas", "x_abandon", 0, 1)
+                          /\ rlist' = [rlist EXCEPT ![t] = <<>>]
+                     ELSE UNCHANGED <<rlist, last, memvars>>
+                /\ Goto(t, "x_release")
+                /\ UNCHANGED <<loc, guards, hint, nstate, budget, flushed, alive, bad>>
+x_release(t) == /\ pc[t] = "x_release"
+                /\ Store(t, ACT(t), FALSE, Ord["x_release"]) /\ Acc(t, "st", "x_release", 0, 1)
+                /\ alive' = [alive EXCEPT ![t] = FALSE]
+                /\ Goto(t, "idle")
+                /\ UNCHANGED <<loc, guards, hint, rlist, nstate, budget, flushed, bad>>
 
 ThreadStep(t) == \/ StartAcquire(t) \/ StartAcqIfEq(t) \/ StartReplace(t) \/ StartReset(t) \/ StartCopy(t) \/ Touch(t) \/ StartFlush(t)
                  \/ a_ld1(t) \/ a_alloc(t) \/ a_null(t) \/ a_set(t) \/ a_fence(t) \/ a_ld2(t)
                  \/ e_ldx(t) \/ e_ld1(t) \/ e_alloc(t) \/ e_set(t) \/ e_fence(t) \/ e_ld2(t)
                  \/ r_st(t) \/ r_nohp(t) \/ c_begin(t) \/ c_alloc(t) \/ c_set(t) \/ c_fence(t)
-                 \/ op_done(t) \/ x_cas(t) \/ s_fence8(t) \/ s_ld(t) \/ s_fence9(t) \/ s_free(t)
+                 \/ op_done(t) \/ x_cas(t) \/ s_fence8(t) \/ s_adopt(t) \/ s_act(t) \/ s_ld(t) \/ s_free(t)
+                 \/ StartExit(t) \/ x_abandon(t) \/ x_release(t)
 Next == \E t \in Threads : ThreadStep(t)
 Spec == Init /\ [][Next]_vars
 
@@ -282,7 +341,7 @@ Safe == /\ bad = "ok"
         /\ \A t \in Threads, g \in 1 .. NG :
              (Established(t, g) /\ guards[t][g].ptr # 0) => nstate[guards[t][g].ptr] \in {"live", "ret"}
 \* C02: once every thread is done, has released its guards and passed its reclamation point, nothing retired remains
-Quiescent == \A t \in Threads : pc[t] = "idle" /\ budget[t] = 0 /\ flushed[t] /\ \A g \in 1 .. NG : guards[t][g].hp = 0
+Quiescent == \A t \in Threads : pc[t] = "idle" /\ budget[t] = 0 /\ (flushed[t] \/ ~alive[t]) /\ \A g \in 1 .. NG : guards[t][g].hp = 0
 NoLeak == Quiescent => \A n \in Nodes : nstate[n] # "ret"
 \* C18: the slot free list is never lost: free slots + slots owned by guards = K
 SlotsConserved == \A t \in Threads : pc[t] = "idle" =>
